@@ -347,14 +347,15 @@ def _run_write(case):
     return {"evals": evals, "nontrivial": evals, "judged": judged, "viols": viols, "outcomes": outcomes, "sample": sample}
 
 
-TEMPLATE_STYLES = ("plain", "packed", "packed-both", "fill", "fill-nan", "int", "unsigned", "attrs", "descending")
+TEMPLATE_STYLES = ("plain", "packed", "packed-both", "fill", "fill-nan", "int", "unsigned", "attrs", "descending",
+                   "format:NETCDF3_CLASSIC", "format:NETCDF3_64BIT_OFFSET", "format:NETCDF4_CLASSIC")  # the file flavour of the template is its own business
 
 
 def _styled_template(path, style):
     """a 2 x 3 template whose coordinate variables are stored the ways real files store them"""
     from netCDF4 import Dataset
 
-    with Dataset(path, "w") as ds:
+    with Dataset(path, "w", **({"format": style.split(":")[1]} if style.startswith("format:") else {})) as ds:
         ds.createDimension("y", 2)
         ds.createDimension("x", 3)
         y = ds.createVariable("y", "i2" if style == "packed-both" else "f8", ("y",))
